@@ -442,10 +442,10 @@ Fixpoint add_attrs (items : list fitem) (data : keylist) : keylist :=
   | _ :: r => add_attrs r data
   end.
 
-(* identity of a local element declaration in a history list: where it is
-   declared (the Python objects of a base type's children are shared by the
-   types derived from it) and, redundantly, what it refers to *)
-Definition hid := (qn * nat * tref)%type.
+(* identity of a local element declaration in a history list (Python object
+   identity): where it is declared (the objects of a base type's children are
+   shared by the types derived from it) and, redundantly, the declaration itself *)
+Definition hid := (qn * nat * edecl)%type.
 
 Definition tref_eqb (a b : tref) : bool :=
   match a, b with
@@ -454,8 +454,13 @@ Definition tref_eqb (a b : tref) : bool :=
   | _, _ => false
   end.
 
+Definition edecl_eqb (a b : edecl) : bool :=
+  N.eqb (e_name a) (e_name b) && N.eqb (e_ns a) (e_ns b) && Bool.eqb (e_qual a) (e_qual b) &&
+  tref_eqb (e_type a) (e_type b) && Bool.eqb (e_opt a) (e_opt b) && Bool.eqb (e_multi a) (e_multi b) &&
+  Bool.eqb (e_nil a) (e_nil b) && opt_eqb N.eqb (e_default a) (e_default b).
+
 Definition hid_eqb (a b : hid) : bool :=
-  qn_eqb (fst (fst a)) (fst (fst b)) && Nat.eqb (snd (fst a)) (snd (fst b)) && tref_eqb (snd a) (snd b).
+  qn_eqb (fst (fst a)) (fst (fst b)) && Nat.eqb (snd (fst a)) (snd (fst b)) && edecl_eqb (snd a) (snd b).
 
 Definition hid_in (h : hid) (l : list hid) : bool := existsb (hid_eqb h) l.
 
@@ -476,36 +481,43 @@ Definition resolve_type (W : wsdl) (ty : tref) : rtype :=
 Section Build.
 Variable W : wsdl.
 
-(* Builder.process for one flattened child of the object whose key list is
-   [data]; [rec hist t] = the members Builder.process gives a fresh object of
-   type t under history hist *)
-Definition process_with (rec : list hid -> ctype -> keylist) (hist : list hid)
-           (data : keylist) (it : fitem) : keylist :=
+(* Builder.process for one flattened child: the setattr it performs on the
+   object being filled, if any; [rec hist t] = the key list Builder.process
+   gives a fresh object of type t under history hist *)
+Definition member_value (rec : list hid -> ctype -> keylist) (hist : list hid) (it : fitem)
+  : option (key * pv) :=
   match it with
-  | FW => data                                     (* skip_child: wildcard *)
-  | FA _ => data                                   (* children() has no attributes *)
+  | FW => None                                     (* skip_child: wildcard *)
+  | FA _ => None                                   (* children() has no attributes *)
   | FE owner idx d ch _ =>
-      if ch then data else                         (* skip_child: a choice above *)
-      let h : hid := (owner, idx, e_type d) in
-      if hid_in h hist then data else              (* recursion cut-off: nothing is set *)
+      if ch then None else                         (* skip_child: a choice above *)
+      let h : hid := (owner, idx, d) in
+      if hid_in h hist then None else              (* recursion cut-off: nothing is set *)
       let k : key := (e_name d, false) in
-      if e_multi d then set_key k PList data else
+      if e_multi d then Some (k, PList) else
       match resolve_type W (e_type d) with
-      | RB => set_key k PNone data
+      | RB => Some (k, PNone)
       | RC t =>
           match all_items W t with
-          | [] => set_key k PNone data             (* len(resolved) == 0 *)
+          | [] => Some (k, PNone)                  (* len(resolved) == 0 *)
           | its =>
-              if e_opt d then set_key k PNone data (* skip_value *)
-              else set_key k (PObj (c_name t) (iter_items (ordering its) (rec (h :: hist) t))) data
+              if e_opt d then Some (k, PNone)      (* skip_value *)
+              else Some (k, PObj (c_name t) (iter_items (ordering its) (rec (h :: hist) t)))
           end
       | RS n vals =>
           match vals with
-          | [] => set_key k PNone data
-          | _ => if e_opt d then set_key k PNone data
-                 else set_key k (PObj n [((n_value, false), PNone)]) data      (* Factory.property *)
+          | [] => Some (k, PNone)
+          | _ => if e_opt d then Some (k, PNone)
+                 else Some (k, PObj n [((n_value, false), PNone)])      (* Factory.property *)
           end
       end
+  end.
+
+Definition process_with (rec : list hid -> ctype -> keylist) (hist : list hid)
+           (data : keylist) (it : fitem) : keylist :=
+  match member_value rec hist it with
+  | Some (k, v) => set_key k v data
+  | None => data
   end.
 
 Fixpoint process_all (rec : list hid -> ctype -> keylist) (hist : list hid)
@@ -524,10 +536,12 @@ Fixpoint members (fuel : nat) (hist : list hid) (t : ctype) : keylist :=
 
 (* every local element declaration of the interface: the recursion depth of
    Builder.process is bounded by their number *)
-Definition decl_count : nat :=
-  fold_right (fun t acc => length (flat_content (c_content t)) + acc) 0 (w_types W).
+Definition hids_of (t : ctype) : list hid :=
+  flat_map (fun it => match it with FE o i d _ _ => [(o, i, d)] | _ => [] end) (own_items t).
 
-Definition build_fuel : nat := Datatypes.S decl_count.
+Definition universe : list hid := flat_map hids_of (w_types W).
+
+Definition build_fuel : nat := Datatypes.S (length universe).
 
 Definition name_or_0 (s : str) : N := match lookup_name W s with Some n => n | None => 0%N end.
 
